@@ -296,6 +296,7 @@ class DocutilsRenderer(RendererProtocol):
         :param temp_root_node: If set, allow sections to be created as children of this node
         :param heading_offset: offset heading levels by this amount
         """
+        n_duplicate_refs = len(self.md_env.get("duplicate_refs", []))
         tokens = (
             self.md.parseInline(text, self.md_env)
             if inline
@@ -310,6 +311,11 @@ class DocutilsRenderer(RendererProtocol):
         for token in tokens:
             if token.map:
                 token.map = [token.map[0] + lineno, token.map[1] + lineno]
+        # ... also of the duplicate reference definitions found in this text,
+        # which are only reported at the end of the render
+        for dup_ref in self.md_env.get("duplicate_refs", [])[n_duplicate_refs:]:
+            if dup_ref.get("map"):
+                dup_ref["map"] = [dup_ref["map"][0] + lineno, dup_ref["map"][1] + lineno]
 
         @contextmanager
         def _restore():
